@@ -989,7 +989,10 @@ impl HelperAttributeForCompareOp {
                 ignore: args.ignore,
                 reverse: args.reverse,
                 by: args.by.map(|x| x.value),
-                key: args.key.map(|x| Template::new(x.value)),
+                key: args
+                    .key
+                    .map(|x| Template::new_checked(x.value))
+                    .transpose()?,
                 bounds: Bounds::from(&args.bound),
             })
         } else {
@@ -1103,6 +1106,17 @@ struct Template(TokenStream);
 impl Template {
     fn new(input: impl ToTokens) -> Self {
         Self(input.to_token_stream())
+    }
+    /// `$` stands for an expression: the input must still be an expression with one in its place.
+    fn new_checked(input: Expr) -> Result<Self> {
+        let this = Self::new(input);
+        if parse2::<Expr>(this.apply(quote!((__value)))).is_err() {
+            bail!(
+                this.span(),
+                "`$` can be used only in place of an expression"
+            );
+        }
+        Ok(this)
     }
     fn apply(&self, value: TokenStream) -> TokenStream {
         replace_tokens(
